@@ -112,7 +112,9 @@ def run(ctx):
 
 
 # sensitivity pack (thorough tier): each seeded edit must be reported by the named rule instance
-MUTANTS = [{'name': 'degree-separator-changed-in-printer', 'file': 'crates/ordinals/src/degree.rs', 'old': '"{}°{}′{}″{}‴"', 'new': '"{}°{}′{}″{}"', 'expect': ('R30.1', 'Degree', '')},
+MUTANTS = [
+  {'name': 'seeded-C30-b', 'patch': 'C30-b/patch.diff', 'expect': ('R30.5', 'Sat::from_decimal', 'components parsed')},
+{'name': 'degree-separator-changed-in-printer', 'file': 'crates/ordinals/src/degree.rs', 'old': '"{}°{}′{}″{}‴"', 'new': '"{}°{}′{}″{}"', 'expect': ('R30.1', 'Degree', '')},
            {'name': 'percent-tested-after-dot', 'file': 'crates/ordinals/src/sat.rs', 'old': "    } else if s.contains('%') {\n      Self::from_percentile(s)\n    } else if s.contains('.') {\n      Self::from_decimal(s)", 'new': "    } else if s.contains('.') {\n      Self::from_decimal(s)\n    } else if s.contains('%') {\n      Self::from_percentile(s)", 'expect': ('R30.4', 'from_str', 'from_percentile is chosen')}]
 
 
